@@ -281,6 +281,12 @@ def oracle(helper, budget, rv, tag, trace):
         if letters and all(code_of(l) in [code_of(x) for x in retry_letters] and l not in ('C',) for l in letters) \
                 and not (helper == 'chunk' and any(l in ('C', 'P') for l in letters)) and tag != 'RetryError':
             bad.append(('exhaustion:%s' % name, '%s saw only retry outcomes and ended with %s' % (name, tag)))
+    if helper in ('send', 'chunk') and letters and letters[-1] in ('C', 'P') and tag != 'ok':
+        # the last request the helper made was answered OK (within the budget, see the bound above): that answer
+        # is the result - the retry-exhausted error is for a run in which every attempt was refused
+        bad.append(('success-reported-as-error:%s' % name,
+                    '%s: request %d of at most %d was answered OK but the helper ended with %s' % (
+                        name, len(letters), lim, tag)))
     if helper == 'send':
         for l in letters[:-1]:
             if code_of(l) != 0xC0:
